@@ -18,6 +18,13 @@ COUSIN = {"2.3": "2.7", "2.4": "2.7", "2.5": "2.7", "2.6": "2.7", "2.7": "2.7", 
           "3.11": "3.11", "3.12": "3.12"}
 
 
+# PyPy's own magic number per language level whose CPython we can run (see c10.PYPY)
+PYPY_MAGIC = {"2.7": 62218, "3.6": 192, "3.7": 240, "3.8": 256, "3.9": 336, "3.10": 384}
+
+
+DOWN = {"2.7": ["2.3", "2.4", "2.5", "2.6"], "3.7": ["3.0", "3.1", "3.2", "3.3", "3.4", "3.5"]}
+
+
 class C01(ProgProp):
     id = "C01"
     aspects = ("tree",)
@@ -38,8 +45,9 @@ class C01(ProgProp):
     def strategy(self, ctx):
         base = super().strategy(ctx)
         return st.tuples(base, st.one_of(st.just(""), st.binary(max_size=12).map(rw.hx),
-                                         st.sampled_from(["4e", "00", "630000", "72000000"]))).map(
-            lambda p: dict(p[0], trail=p[1]))
+                                         st.sampled_from(["4e", "00", "630000", "72000000"])),
+                         st.booleans(), st.integers(0, 59)).map(
+            lambda p: dict(p[0], trail=p[1], pypy=p[2], down=p[3]))
 
     def fixed_cases(self, ctx):
         for rel in pd.corpus_files():
@@ -134,7 +142,60 @@ class C01(ProgProp):
                 d = cn.diff(ref["tree"], x["tree"])
                 if d:
                     res.fail("C01|%s|trailing-bytes|tree" % case["v"], "tree differs when trailing bytes follow: %s" % (d,))
+        if case.get("pypy") and case.get("v") in PYPY_MAGIC and not res.reject and not res.failures and case.get("k") in ("prog", "stdlib"):
+            # the same payload as a PyPy file of that language level: PyPy marshals the CPython layout under its own magic
+            import struct
+            ref = self.reference(case, ctx)
+            hdr = rw.unhx(ref["header"])
+            data = struct.pack("<H", PYPY_MAGIC[case["v"]]) + hdr[2:] + rw.unhx(ref["payload"])
+            x, err = pd.xdis_dump(data, 0)
+            res.classes.append("pypy-magic:" + case["v"])
+            if err:
+                res.fail("C01|pypy%s|loader-raised|%s|%s" % (case["v"], err[0], err[2]), "under PyPy's magic %d load raised %s: %s" % (
+                    PYPY_MAGIC[case["v"]], err[0], err[1]))
+            else:
+                d = cn.diff(_mask_nofree(ref["tree"]), _mask_nofree(x["tree"]))
+                if d:
+                    res.fail("C01|pypy%s|field|%s" % (case["v"], cn.field_of(d[0]) or "const"),
+                             "payload of CPython %s under PyPy's magic %d: tree differs at %s: CPython %s, xdis %s" % (
+                                 case["v"], PYPY_MAGIC[case["v"]], d[0], d[1], d[2]))
+        if case.get("v") in DOWN and not res.reject and not res.failures and case.get("k") in ("prog", "stdlib") \
+                and isinstance(case.get("down"), int):
+            self.judge_down(case, ctx, res)
         return res
+
+    def judge_down(self, case, ctx, res):
+        """the same code tree as a file of an older version with the identical code layout (2.3-2.6 from 2.7's tree,
+        3.0-3.5 from 3.7's): written by refmarshal in that version's marshal format, read back by the cousin interpreter"""
+        import struct
+        from vf.magicreg import final_magics
+        from vf.ref import refmarshal as rm
+        v = case["v"]
+        target = DOWN[v][case["down"] % len(DOWN[v])]
+        ref = self.reference(case, ctx)
+        if len(ref["payload"]) > 60000:
+            return
+        try:
+            payload, feats = rm.encode(ref["tree"], target, [case["down"] % 7, 3, 1, 4, 1, 5, 9, 2, 6])
+        except rm.Unencodable:
+            return
+        r = ctx.pool.ref(v).call("loads", payload=rw.hx(payload))
+        if "reject" in r:
+            return
+        vt = rm.vtuple(target)
+        hdr = struct.pack("<H", final_magics()[vt]) + b"\r\n" + b"\x01\x02\x03\x04" + (b"\x05\x00\x00\x00" if vt >= (3, 3) else b"")
+        x, err = pd.xdis_dump(hdr + payload, 0)
+        res.classes.append("down-level:" + target)
+        if err:
+            res.fail("C01|%s|down-level|loader-raised|%s|%s" % (target, err[0], err[2]), "%s-format file of a %s code tree: load raised %s: %s" % (
+                target, v, err[0], err[1]))
+            return
+        d = cn.diff(r["tree"], x["tree"])
+        if d:
+            res.fail("C01|%s|down-level|field|%s|exp=%s|got=%s" % (target, cn.field_of(d[0]) or "const", pd.kshort(d[1]), pd.kshort(d[2])),
+                     "%s-format file of a %s code tree: differs at %s: CPython %s reads %s, xdis %s" % (target, v, d[0], v, d[1], d[2]))
+        elif x.get("consumed") != len(payload):
+            res.fail("C01|%s|down-level|consumed" % target, "payload %d bytes, consumed %s" % (len(payload), x.get("consumed")))
 
     def judge_corpus(self, case, ctx):
         res = Result()
